@@ -626,4 +626,93 @@ theorem symRel_conv {a b : Rng} (ha : rngSmall a = true) (hb : rngSmall b = true
     beq_iff_eq] at h ⊢
   omega
 
+theorem u32_pred_toNat {e s : UInt32} (h : e > s) : (e - 1).toNat = e.toNat - 1 := by
+  have h' : s.toNat < e.toNat := UInt32.lt_iff_toNat_lt.mp h
+  have : (1 : UInt32) ≤ e := by
+    rw [UInt32.le_iff_toNat_le]; simp; omega
+  rw [UInt32.toNat_sub_of_le _ _ this]; rfl
+
+/-- What the fold of one transaction is, in natural numbers. -/
+theorem txFold_spec {fx : Fixes} {t : Transaction} {f : Fold} (st : rngSmall t.range = true)
+    (pt : rngPos t.range = true) (hf : txFold fx t = some f) :
+    f.s.toNat = t.range.start.line - 1 ∧ f.s.toNat < f.e.toNat ∧ f.e.toNat ≤ t.range.stop.line - 1 ∧
+    (fx.fold = false → f.e.toNat = t.range.stop.line - 1) ∧
+    (fx.fold = true → t.range.stop.col = 1 → f.e.toNat = t.range.stop.line - 2) := by
+  simp only [rngSmall, rngPos, Bool.and_eq_true, decide_eq_true_eq] at st pt
+  have e1 := m1_toNat pt.1.1.1 st.1.1.1
+  have e2 := m1_toNat pt.1.2 st.1.2
+  unfold txFold at hf
+  by_cases hp : t.postings.isEmpty = true
+  · simp [hp] at hf
+  · simp only [hp, Bool.false_eq_true, if_false] at hf
+    cases hc : (fx.fold && t.range.stop.col == 1 && decide (m1 t.range.stop.line > m1 t.range.start.line)) with
+    | true =>
+      simp only [hc, if_true] at hf
+      simp only [Bool.and_eq_true, decide_eq_true_eq, beq_iff_eq] at hc
+      have hpred := u32_pred_toNat hc.2
+      by_cases hgt : m1 t.range.stop.line - 1 > m1 t.range.start.line
+      · simp only [hgt, if_true, Option.some.injEq] at hf
+        subst hf
+        have hlt := UInt32.lt_iff_toNat_lt.mp hgt
+        simp only
+        rw [hpred] at hlt ⊢
+        rw [e1] at hlt ⊢
+        rw [e2] at hlt ⊢
+        refine ⟨rfl, by omega, by omega, ?_, fun _ _ => by omega⟩
+        intro h0; rw [h0] at hc; simp at hc
+      · simp [hgt] at hf
+    | false =>
+      simp only [hc, Bool.false_eq_true, if_false] at hf
+      by_cases hgt : m1 t.range.stop.line > m1 t.range.start.line
+      · simp only [hgt, if_true, Option.some.injEq] at hf
+        subst hf
+        have hlt := UInt32.lt_iff_toNat_lt.mp hgt
+        rw [e1, e2] at hlt
+        simp only
+        refine ⟨e1, by rw [e1, e2]; omega, by rw [e2]; omega, fun _ => e2, ?_⟩
+        intro h1 h2
+        exfalso
+        simp [h1, h2, hgt] at hc
+      · simp [hgt] at hf
+
+/-! ### Completion edit range -/
+
+theorem stripCR_prefix (l : Txt) : ∃ suf, l = stripCR l ++ suf := by
+  unfold stripCR
+  split
+  · exact ⟨l.drop (l.length - 1), by simp [List.dropLast_eq_take]⟩
+  · exact ⟨[], by simp⟩
+
+theorem takeU16_of_charsOf {l : Txt} {n k : Nat} (suf : Txt) (h : charsOf u16w l n = some k) :
+    takeU16 (l ++ suf) n = k := by
+  induction l generalizing n k with
+  | nil =>
+    cases n with
+    | zero => simp [charsOf] at h; subst h; cases suf <;> simp [takeU16]
+    | succ n => simp [charsOf] at h
+  | cons c cs ih =>
+    cases n with
+    | zero => simp [charsOf] at h; subst h; simp [takeU16]
+    | succ n =>
+      simp only [charsOf] at h
+      split at h
+      · cases h' : charsOf u16w cs (n + 1 - u16w c) with
+        | none => simp [h'] at h
+        | some k' =>
+          simp [h'] at h
+          subst h
+          simp only [List.cons_append, takeU16, Nat.add_one_ne_zero, if_false, ih h']
+          omega
+      · simp at h
+
+theorem u16len_take_mono (l : Txt) {a b : Nat} (hab : a ≤ b) (hb : b ≤ l.length) :
+    u16len (l.take a) ≤ u16len (l.take b) := by
+  rcases Nat.lt_or_ge a b with h | h
+  · exact Nat.le_of_lt (u16len_take_lt l b a h hb)
+  · have : a = b := by omega
+    subst this; exact Nat.le_refl _
+
+theorem docLines_get (doc : Txt) (i : Nat) : (docLines doc)[i]? = ((lines doc)[i]?).map stripCR := by
+  simp [docLines]
+
 end HL.Lemmas.Ranges
